@@ -67,6 +67,7 @@ type Contract struct {
 	Reveal       []string // opaque specification functions whose definition this proof may use
 	AtCalls      []*Clause
 	LightCalls   bool   // proof hint: quantified postconditions of callees are not imported
+	Pure         bool   // interface method: its results are functions of the receiver and the arguments
 	ModelFn      string // model: spec-file function that replaces it
 	OpaqueFn     string // opaque: name of the specification function
 
@@ -250,6 +251,11 @@ func ParseContractFile(pkgKey, path string) ([]*Contract, error) {
 				return nil, fmt.Errorf("%s:%d: atcall <callee> <expr>", path, it.line)
 			}
 			cur.AtCalls = append(cur.AtCalls, &Clause{Kind: "atcall", Props: props, Text: strings.TrimSpace(sp[1]), Callee: sp[0], Line: it.line, N: len(cur.AtCalls)})
+		case "pure":
+			cur.Pure = true
+			if rest != "" {
+				cur.Assumes = append(cur.Assumes, rest)
+			}
 		case "light":
 			if rest != "calls" {
 				return nil, fmt.Errorf("%s:%d: light calls", path, it.line)
@@ -835,7 +841,9 @@ func GenClauses(pkgName string, imports []string, cs []*Contract, calleeParams m
 			}
 			fmt.Fprintf(&b, "func %s__modifies(%s) {\n", base, strings.Join(sig, ", "))
 			for _, m := range c.Modifies {
-				if strings.HasSuffix(m, "[*]") {
+				if strings.HasSuffix(m, "{*}") {
+					fmt.Fprintf(&b, "\tvcModMap(%s)\n", strings.TrimSuffix(m, "{*}"))
+				} else if strings.HasSuffix(m, "[*]") {
 					fmt.Fprintf(&b, "\tvcModElems(len(%s), &(%s)[0])\n", strings.TrimSuffix(m, "[*]"), strings.TrimSuffix(m, "[*]"))
 				} else {
 					fmt.Fprintf(&b, "\tvcMod(&(%s))\n", m)
